@@ -222,6 +222,29 @@ def reachable_blocks(f, start=0, avoid=()):
     return seen
 
 
+def natural_loops(f):
+    """{head block: set of blocks of the natural loop(s) with that head} (back edge a -> h with h dominating a)."""
+    dom = dominators(f)
+    preds = collections.defaultdict(set)
+    for i, b in blocks(f):
+        for m in succ(b):
+            if not f['blocks'][m]['cleanup']:
+                preds[m].add(i)
+    loops = {}
+    for i, b in blocks(f):
+        for h in succ(b):
+            if h in dom.get(i, ()) or h == i:
+                body = loops.setdefault(h, {h})
+                todo = [i]
+                while todo:
+                    n = todo.pop()
+                    if n in body:
+                        continue
+                    body.add(n)
+                    todo.extend(preds[n])
+    return loops
+
+
 PANIC_PREFIXES = ('core::panicking::', 'std::rt::begin_panic', 'core::option::expect_failed',
                   'core::result::unwrap_failed', 'core::option::unwrap_failed', 'std::rt::panic_fmt',
                   'core::slice::index::slice_', 'core::str::slice_error_fail')
